@@ -521,6 +521,13 @@ func (w *Wallet) syncWithChain(birthdayStamp *waddrmgr.BlockStamp) error {
 			if err != nil {
 				return err
 			}
+
+			// The recovery below must start at the new birthday
+			// block as well, otherwise the blocks of the new chain
+			// below the old birthday height would be marked as
+			// synced without being scanned.
+			newBirthdayStamp := rollbackStamp
+			birthdayStamp = &newBirthdayStamp
 		}
 
 		// Finally, we'll roll back our transaction store to reflect the
